@@ -33,22 +33,22 @@ def nollInv (n : Nat) (m : Int) : Nat :=
   else if 0 < m then (if (tri n + m.natAbs) % 2 = 0 then tri n + m.natAbs else tri n + m.natAbs + 1)
   else (if (tri n + m.natAbs) % 2 = 1 then tri n + m.natAbs else tri n + m.natAbs + 1)
 
-/-- the literal list construction of `zernike_index`: `row_m = [1, 1]` (n odd) or `[0]`, then ⌊n/2⌋ times append
-`last + 2` twice -/
+/-- the literal list construction of `zernike_index`, from the REGENERATED pieces: seed `Gen.rowSeed n` (`[1, 1]` for odd n, `[0]` otherwise),
+then `Gen.rowLoops n` (= ⌊n/2⌋) passes each appending `Gen.rowStep last` (= `last + 2` twice) -/
 def rowMLoop : Nat → List Nat → List Nat
   | 0, l => l
-  | t + 1, l => let a := l.getLastD 0 + 2; rowMLoop t (l ++ [a] ++ [a])
+  | t + 1, l => rowMLoop t (l ++ Gen.rowStep (l.getLastD 0))
 
-def rowMList (n : Nat) : List Nat := rowMLoop (n / 2) (if n % 2 = 1 then [1, 1] else [0])
+def rowMList (n : Nat) : List Nat := rowMLoop (Gen.rowLoops n) (Gen.rowSeed n)
 
 /-- `zernike_index(j)` as written: row `n`, `r = j - (n+1)(n+2)/2 - 1` (a negative index from the end of `row_m`) -/
 def codeIndex (j : Nat) : Int × Nat :=
   let n := nollN j
   if n = 0 then (0, 0) else
-    let r : Int := (j : Int) - ((n + 1) * (n + 2) / 2 : Nat) - 1
+    let r : Int := Gen.idxR j n
     let l := rowMList n
     let idx : Int := if r < 0 then (l.length : Int) + r else r
-    let sign : Int := if j % 2 = 1 then -1 else 1
+    let sign : Int := Gen.idxSign j
     ((l.getD idx.toNat 0 : Int) * sign, n)
 
 /-! ## radial polynomials -/
